@@ -150,3 +150,219 @@ theorem released_dir_records (info : Nat → Pipeline.Info) (server : MainLoop.E
   rfl
 
 end TLX.Lemmas.Capstone
+
+-- ====================================================================== the session over the transcript's records
+namespace TLX.Lemmas.Capstone
+open TLX TLX.Cipher TLX.RecordLayer TLX.Spec.TlsSender TLX.Props.C01 TLX.Lemmas.Pipeline TLX.Spec.TlsConnection
+
+/-- the exported bytes of one direction of a traffic list (what `OutputBuilder` will spread over segments) -/
+def dirPlain (d : Bool) (tr : List Session.Entry) : Bytes :=
+  (tr.filter fun e => e.fromServer == d).flatMap fun e => e.data.getD TcpOut.placeholder
+
+theorem dirBytes_toRec (ts : Nat → Nat) (d : Bool) (tr : List Session.Entry) :
+    Props.C06.dirBytes d (tr.map (toRec ts)) = dirPlain d tr := by
+  induction tr with
+  | nil => rfl
+  | cons e es ih =>
+    simp only [Props.C06.dirBytes, dirPlain, List.map_cons, List.filter_cons] at ih ⊢
+    by_cases h : e.fromServer = d
+    · simp [toRec, h, TcpOut.Rec.bytes, ih]
+    · have h' : (e.fromServer == d) = false := by simpa using h
+      simp [toRec, h', ih]
+
+theorem dirPlain_append (d : Bool) (a b : List Session.Entry) : dirPlain d (a ++ b) = dirPlain d a ++ dirPlain d b := by
+  simp [dirPlain, List.filter_append]
+
+theorem set_get (x : Snd) (d : Bool) : x.set d (x.get d) = x := by cases d <;> rfl
+
+/-- the record an endpoint in cipher state `sd` sends for `e`, and its cipher state afterwards -/
+def evRaw (P : Prims) (L : SealLaws P) (cls : CipherClass) (ver : Bytes) (sd : SDir) : DirEv → Bytes
+  | .clear body => record 22 ver body
+  | .ccs => record 20 ver [1]
+  | .enc typ pt f => (protect P L cls ver sd typ pt f).2
+  | .hs13 ms f => (protect P L cls ver sd 22 (hsBytes ms) f).2
+
+def evNext (P : Prims) (L : SealLaws P) (cls : CipherClass) (ver : Bytes) (sd : SDir) : DirEv → SDir
+  | .clear _ => sd
+  | .ccs => sd
+  | .enc typ pt f => (protect P L cls ver sd typ pt f).1
+  | .hs13 ms f => switchN (finished ms) (protect P L cls ver sd 22 (hsBytes ms) f).1
+
+theorem sendDir_cons (P : Prims) (L : SealLaws P) (cls : CipherClass) (ver : Bytes) (sd : SDir) (e : DirEv)
+    (r : List DirEv) :
+    sendDir P L cls ver sd (e :: r) = evRaw P L cls ver sd e :: sendDir P L cls ver (evNext P L cls ver sd e) r := by
+  cases e <;> rfl
+
+/-- what the RFCs require of the protected records of a script (`Props.C01.SendOk`; uint24 message lengths) -/
+def EvOk1 (cls : CipherClass) (macLen : Nat) : DirEv → Prop
+  | .enc _ pt f => SendOk cls macLen pt f
+  | .hs13 ms _ => ∀ m ∈ ms, MsgOk m
+  | _ => True
+
+theorem record_typ (typ : UInt8) (ver body : Bytes) (car : List Nat) :
+    (⟨record typ ver body, car⟩ : Session.Rec).typ = some typ := by
+  simp [Session.Rec.typ, record]
+
+theorem record_body (typ : UInt8) (ver body : Bytes) (car : List Nat) (hv : ver.length = 2) :
+    (⟨record typ ver body, car⟩ : Session.Rec).body = body := by
+  have := (hsRecord_fields ver body car hv).2.2
+  match ver, hv with
+  | [a, b], _ =>
+    have h2 := Lemmas.RecLayer.u16_length body.length
+    simp only [record, Session.Rec.body]
+    generalize u16 body.length = l at *
+    match l, h2 with
+    | [l1, l2], _ => rfl
+
+/-- a clear-text handshake record that is no hello, from a side whose ChangeCipherSpec has not been seen (or before any
+    decryptor exists): nothing happens (without `-a`) -/
+theorem handle_clear_noop (O : Session.Ops Dec) (s : Session.St Dec) (ver body : Bytes) (hv : ver.length = 2)
+    (car : List Nat) (d : Bool) (hb : ∀ t ∈ body.head?, t ≠ 1 ∧ t ≠ 2) (h : s.dec = none ∨ ccOf s d = false) :
+    Session.handleRecord O false s ⟨record 22 ver body, car⟩ d = s := by
+  have hfin : (Session.handshakeFinished O false s ⟨record 22 ver body, car⟩ d).st = s := by
+    unfold Session.handshakeFinished
+    cases hdec : s.dec with
+    | none => rfl
+    | some dd =>
+      have hcc : ccOf s d = false := by rcases h with h | h; · rw [hdec] at h; cases h
+                                        · exact h
+      have hgate : (s.srvCC && d && s.canDecrypt || s.cliCC && !d && s.canDecrypt) = false := by
+        cases d <;> simp only [ccOf, if_true, Bool.false_eq_true, if_false] at hcc <;> simp [hcc]
+      simp only [hgate, Bool.false_eq_true, if_false]
+      rfl
+  unfold Session.handleRecord Session.handleRecordRaw
+  rw [record_typ]
+  simp only [if_true]
+  have hok := Session.handshakeRecord_isOk O false s ⟨record 22 ver body, car⟩ d
+  have hst : (Session.handshakeRecord O false s ⟨record 22 ver body, car⟩ d).st = s := by
+    unfold Session.handshakeRecord
+    split
+    · rw [Session.tryExcept_id_st]; exact hfin
+    · rw [record_body 22 ver body car hv]
+      cases body with
+      | nil => rfl
+      | cons t rest =>
+        have ht := hb t (by simp)
+        simp only [ht.1, ht.2, if_false]
+        rw [Session.tryExcept_id_st]; exact hfin
+  cases hr : Session.handshakeRecord O false s ⟨record 22 ver body, car⟩ d with
+  | raised s1 => rw [hr] at hok; cases hok
+  | ok s1 => rw [hr] at hst; simp only [Session.Out.st] at hst ⊢; rw [hst]; rfl
+
+/-- an application-type record never touches the ChangeCipherSpec flags -/
+theorem handle_app_flags (O : Session.Ops Dec) (m : Bool) (s : Session.St Dec) (r : Session.Rec) (d : Bool)
+    (ht : r.typ = some 0x17) :
+    (Session.handleRecord O m s r d).srvCC = s.srvCC ∧ (Session.handleRecord O m s r d).cliCC = s.cliCC := by
+  unfold Session.handleRecord Session.handleRecordRaw
+  rw [ht]
+  have h1 : ((0x17 : UInt8) = 0x16) = False := by decide
+  simp only [h1, if_false, if_true]
+  split
+  · split
+    · rw [Session.tryExcept_id_st]
+      unfold Session.app13
+      split
+      · exact ⟨rfl, rfl⟩
+      · split
+        · exact ⟨rfl, rfl⟩
+        · exact ⟨rfl, rfl⟩
+        · simp only
+          split
+          · exact ⟨rfl, rfl⟩
+          · split
+            · split <;> exact ⟨rfl, rfl⟩
+            · split <;> exact ⟨rfl, rfl⟩
+    · unfold Session.appLegacy
+      split
+      · exact ⟨rfl, rfl⟩
+      · split <;> exact ⟨rfl, rfl⟩
+    · exact ⟨rfl, rfl⟩
+  · exact ⟨rfl, rfl⟩
+
+-- ------------------------------------------------------------------ TLS ≤ 1.2: one record of a script
+def AllEnc12 (l : List DirEv) : Prop := ∀ e ∈ l, ∃ typ pt f, e = DirEv.enc typ pt f ∧ (typ = 22 ∨ typ = 23)
+
+/-- where a side is in its script, as the session's ChangeCipherSpec flag tells -/
+def DirInv12 (s : Session.St Dec) (d : Bool) (rem : List DirEv) : Prop :=
+  (ccOf s d = false ∧ Script12 rem) ∨ (ccOf s d = true ∧ AllEnc12 rem)
+
+theorem ccOf_of_flags {s s' : Session.St Dec} (h1 : s'.srvCC = s.srvCC) (h2 : s'.cliCC = s.cliCC) (d : Bool) :
+    ccOf s' d = ccOf s d := by
+  cases d <;> simp [ccOf, h1, h2]
+
+theorem dirPlain_push (d' d : Bool) (tr : List Session.Entry) (pt : Bytes) (r : Session.Rec) (a : Bool) :
+    dirPlain d' (tr ++ [⟨some pt, r, d, a⟩]) = dirPlain d' tr ++ (if d' = d then pt else []) := by
+  rw [dirPlain_append]
+  congr 1
+  by_cases h : d' = d
+  · subst h; simp [dirPlain]
+  · have : (d == d') = false := by simpa using fun h' => h h'.symm
+    simp [dirPlain, h, this]
+
+theorem step12 (H : Crypto.Prims) (P : Prims) (L : SealLaws P) (kl : List Keylog.Key) (cls : CipherClass)
+    (h13 : cls.is13 = false) (macLen : Nat) (ver : Bytes) (hv : ver.length = 2) (x : Snd) (s : Session.St Dec)
+    (hs : Ready cls macLen x s) (d : Bool) (e : DirEv) (rem : List DirEv) (car : List Nat)
+    (hinv : DirInv12 s d (e :: rem)) (hok : EvOk1 cls macLen e) (hq : x.c.seq < seqLimit ∧ x.s.seq < seqLimit) :
+    let s' := Session.handleRecord (Pipeline.ops H P kl) false s ⟨evRaw P L cls ver (x.get d) e, car⟩ d
+    let x' := x.set d (evNext P L cls ver (x.get d) e)
+    Ready cls macLen x' s' ∧ DirInv12 s' d rem ∧ ccOf s' (!d) = ccOf s (!d) ∧
+    (∀ d', dirPlain d' s'.traffic = dirPlain d' s.traffic ++ (if d' = d then Spec.TlsConnection.plainOf [e] else [])) ∧
+    x'.c.seq ≤ max x.c.seq x.s.seq + 1 ∧ x'.s.seq ≤ max x.c.seq x.s.seq + 1 := by
+  intro s' x'
+  cases e with
+  | clear b =>
+    rcases hinv with ⟨hcc, cl, rest, hl, hcl, hrest⟩ | ⟨_, hall⟩
+    · cases cl with
+      | nil => simp at hl
+      | cons b' cl' =>
+        simp only [List.map_cons, List.cons_append, List.cons.injEq, DirEv.clear.injEq] at hl
+        obtain ⟨rfl, hrem⟩ := hl
+        have hnoop : s' = s := handle_clear_noop _ s ver b hv car d (hcl b (by simp)) (Or.inr hcc)
+        have hx : x' = x := set_get x d
+        rw [hnoop, hx]
+        refine ⟨hs, Or.inl ⟨hcc, cl', rest, hrem, fun b' hb' => hcl b' (by simp [hb']), hrest⟩, rfl, ?_, by omega, by omega⟩
+        intro d'; simp [Spec.TlsConnection.plainOf]
+    · obtain ⟨_, _, _, h, _⟩ := hall _ (List.mem_cons_self ..); cases h
+  | ccs =>
+    obtain ⟨a1, a2, a3, a4, a5, _, a7⟩ := handleRecord_ccs (Pipeline.ops H P kl) false s
+      ⟨record 20 ver [1], car⟩ d (record_typ 20 ver [1] car)
+    have hx : x' = x := set_get x d
+    rw [hx]
+    rcases hinv with ⟨hcc, cl, rest, hl, hcl, hrest⟩ | ⟨_, hall⟩
+    · cases cl with
+      | cons b' cl' => simp at hl
+      | nil =>
+        simp only [List.map_nil, List.nil_append, List.cons.injEq, true_and] at hl
+        subst hl
+        refine ⟨hs.of_eq a1 a2 a3, Or.inr ⟨a4, hrest⟩, a5, ?_, by omega, by omega⟩
+        intro d'
+        show dirPlain d' (Session.handleRecord _ false s ⟨record 20 ver [1], car⟩ d).traffic = _
+        rw [a7 rfl]; simp [Spec.TlsConnection.plainOf]
+    · obtain ⟨_, _, _, h, _⟩ := hall _ (List.mem_cons_self ..); cases h
+  | enc typ pt f =>
+    rcases hinv with ⟨_, cl, rest, hl, _, _⟩ | ⟨hcc, hall⟩
+    · cases cl <;> simp at hl
+    · obtain ⟨typ', pt', f', he, htyp⟩ := hall _ (List.mem_cons_self ..)
+      cases he
+      have hall' : AllEnc12 rem := fun e he => hall e (List.mem_cons_of_mem _ he)
+      rcases htyp with rfl | rfl
+      · obtain ⟨_, b2, b3, b4, b5, b6, b7⟩ := handleRecord_hsEnc H P L kl cls h13 macLen ver hv x s hs d hcc pt f hok hq false car
+        refine ⟨b3, Or.inr ⟨(ccOf_of_flags b4 b5 d).trans hcc, hall'⟩, ccOf_of_flags b4 b5 _, ?_, b6, b7⟩
+        intro d'
+        show dirPlain d' (Session.handleRecord _ false s ⟨(protect P L cls ver (x.get d) 22 pt f).2, car⟩ d).traffic = _
+        rw [b2 rfl]; simp [Spec.TlsConnection.plainOf]
+      · obtain ⟨c1, c2, c3, c4⟩ := handleRecord_app H P L kl cls macLen ver hv x s hs d pt f hok hq false car
+        have htyp : (⟨(protect P L cls ver (x.get d) 23 pt f).2, car⟩ : Session.Rec).typ = some 0x17 :=
+          protect_head_legacy P L cls h13 ver _ 23 pt f
+        obtain ⟨f1, f2⟩ := handle_app_flags (Pipeline.ops H P kl) false s _ d htyp
+        refine ⟨c2, Or.inr ⟨(ccOf_of_flags f1 f2 d).trans hcc, hall'⟩, ccOf_of_flags f1 f2 _, ?_, c3, c4⟩
+        intro d'
+        show dirPlain d' (Session.handleRecord _ false s ⟨(protect P L cls ver (x.get d) 23 pt f).2, car⟩ d).traffic = _
+        rw [c1, dirPlain_push]
+        simp [Spec.TlsConnection.plainOf]
+  | hs13 ms f =>
+    rcases hinv with ⟨_, cl, rest, hl, _, _⟩ | ⟨_, hall⟩
+    · cases cl <;> simp at hl
+    · obtain ⟨_, _, _, h, _⟩ := hall _ (List.mem_cons_self ..); cases h
+
+end TLX.Lemmas.Capstone
